@@ -41,6 +41,17 @@ func checkRangeEq(tr *timeRange, start, end time.Time, where string) {
 	}
 	vrt.Assert(time.Time(tr.Start).Equal(start), where+": time-range start instant")
 	vrt.Assert(time.Time(tr.End).Equal(end), where+": time-range end instant")
+	checkUTCText(tr.Start, start, where+": time-range start")
+}
+
+// checkUTCText: the attribute text is the instant in UTC (time.Format is an
+// uninterpreted function of layout, instant and zone in the symbolic run).
+func checkUTCText(d dateWithUTCTime, want time.Time, where string) {
+	if want.IsZero() {
+		return
+	}
+	text, err := d.MarshalText()
+	vrt.Assert(err == nil && string(text) == want.UTC().Format(dateWithUTCTimeLayout), where+" is sent as the UTC form of the caller's instant")
 }
 
 func checkTextEq(el *textMatch, tm *TextMatch, where string) {
@@ -117,6 +128,7 @@ func checkExpandEq(el *expand, e *CalendarExpandRequest, where string) {
 	vrt.Assert((el != nil) == (e != nil), where+": expand presence")
 	if el != nil && e != nil {
 		vrt.Assert(time.Time(el.Start).Equal(e.Start) && time.Time(el.End).Equal(e.End), where+": expand range instants")
+		checkUTCText(el.Start, e.Start, where+": expand start")
 	}
 }
 
